@@ -21,7 +21,7 @@ import threading
 
 import vlib
 
-SW = "CONSTANTS ControlsExisting = TRUE\n  RandomFresh = TRUE\n  OpenReturns = TRUE\n  OwnsOnlyCreated = TRUE\n  OpenKeepsLimits = TRUE\n"
+SW = "CONSTANTS ControlsExisting = TRUE\n  RandomFresh = TRUE\n  OpenReturns = TRUE\n  OwnsOnlyCreated = TRUE\n  OpenKeepsLimits = TRUE\n  MovesWholeProcess = TRUE\n"
 
 
 class Lane:
@@ -69,7 +69,7 @@ def mc(ctx0, errs):
         ctx0.cov["mc_states"], ctx0.cov["mc_transitions"] = st, tr
         # sanity of the models (thorough): each defective design must be caught
         if not ctx0.quick():
-            for sw in ("ControlsExisting", "RandomFresh", "OpenReturns", "OwnsOnlyCreated", "OpenKeepsLimits"):
+            for sw in ("ControlsExisting", "RandomFresh", "OpenReturns", "OwnsOnlyCreated", "OpenKeepsLimits", "MovesWholeProcess"):
                 b = ctx.tlc("Cgroup_MC", cfg=mc_cfg(5, 4, withset=True, **{sw: "FALSE"}), workers=2, timeout=600)
                 if b.invariant != "ImplRefines":
                     raise vlib.Inconclusive("model sanity: %s = FALSE should violate ImplRefines:\n%s" % (sw, b.tail(20)))
@@ -80,7 +80,8 @@ def mc(ctx0, errs):
                                      "v1 handle of an existing group acts on nothing -> AddProc moves nobody",
                                      "Random returns an existing group", "OpenExisting(v1) returns no handle",
                                      "pre-existing directory of a later hierarchy recorded as created -> Destroy removes a foreign group",
-                                     "another handle on an existing group re-initialises its cpuset -> a limit written is no longer in force"]
+                                     "another handle on an existing group re-initialises its cpuset -> a limit written is no longer in force",
+                                     "AddProc attaches one thread only -> the process is split across groups"]
     except Exception as e:  # noqa
         errs.append(e)
 
@@ -221,7 +222,8 @@ def run1(ctx, nonce):
         "limits written are the limits in force: after EVERY call all limit files of all groups of the case are read back and every limit a successful Set* established (memory.limit_in_bytes, cpu.cfs_quota_us/period_us, pids.max, cpuset.cpus) must be unchanged until its directory is removed; for cpuset also Cpus_allowed_list of the member processes. A Set* the kernel refuses (hierarchy constraints) is an admissible error and changes nothing",
         "limits: the value passed appears verbatim in the limit file (cfs quota/period in microseconds although the interface comment says ns); memory limits are page multiples",
         "memory.peak / pids.peak / memory.current parsing is exercised on fixture directories (these controllers are bound to v1 on this host); CPU tolerance: factor 2 and 50 ms against the burner's rusage",
-        "kernel: rmdir of a group with processes or children fails with EBUSY; /proc/<pid>/cgroup is the truth about membership",
+        "membership is judged per thread: the helpers (and the burner) are multi-threaded before AddProc/Nest; /proc/<pid>/task/*/cgroup of every thread, the tasks file of every group and pids.current (hierarchical thread count) are compared after every call; membership facts are judged before any accounting comparison",
+        "kernel: rmdir of a group with processes or children fails with EBUSY; /proc/<pid>/task/<tid>/cgroup is the truth about membership",
     ]
     nontriv = sum(1 for t in traces if len(t["ev"]) > 2)
     return dict(evaluations=len(traces) + len(uobs) + len(fobs), distinct=nontriv,
